@@ -28,7 +28,11 @@ RULE = ("convex solids from gen.convex_solid (35% prisms/antiprisms with n-gon c
         "exponent notation), built as ConvexPolyhedron(vertices) or as Polyhedron(vertices, faces), a third of them "
         "REACHED THROUGH MUTATORS (history.maybe_via_history); fixed tetrahedra / cubes at 1e-6..1e6, an irregular wedge "
         "inside each of the eight octants and straddling the origin (both classes); boxes with one corner 1e-12..1e-3 "
-        "from the origin (tiny next to large coordinates); solids at scale 1e-12..1e12 (number-formatting clauses only); "
+        "from the origin (tiny next to large coordinates); NON-CONVEX closed meshes with convex faces as Polyhedron — "
+        "cubes whose top is a deep pyramidal / frustum-shaped dent (not star-shaped about the vertex mean), voxel solids "
+        "(U, C, frames with a through-hole, cup, cage, stairs, random), prisms over L/U/C/T/plus/Z/star/zigzag polygons "
+        "with triangulated caps — scaled, rotated and placed in every octant, exact volume known; solids at scale "
+        "1e-12..1e12 (number-formatting clauses only); "
         "every case is exported in all seven formats, in an order drawn per case, directly and through save(), then moved "
         "with the centroid setter and exported once more; distinct = distinct (class, vertex array); non-trivial = >= 4 "
         "vertices in convex position and a constructed shape")
@@ -44,7 +48,12 @@ ASSUMPTIONS = [
     "tile the face (boundary chain = face cycle, positive orientation, area 1e-8)",
     "XML serialisation (element tree <-> text) is not proved: the model's ElementTree serialiser is compared byte for "
     "byte with the real file, which is re-parsed with expat/minidom (X3D) and html.parser (HTML)",
-    "all generated solids are convex: 'outward' is tested per face against the vertex mean and by signed volume > 0",
+    "'outward' is judged without assuming convexity: the file's surface must be closed and consistently oriented "
+    "(every directed edge matched by exactly one opposite edge), its signed volume positive and equal to the exact "
+    "volume of the solid where the generator knows it; STL: right-hand rule per facet, each facet in the plane of the "
+    "face it came from with that face's normal (the shape's own cycles are outward: C07), facets closed and oriented, "
+    "facet volume = volume of the solid; for convex solids additionally every face / facet normal points away from the "
+    "vertex mean",
     "'exporting does not change the shape' is examined (a) bit for bit on every attribute of the instance dict after "
     "every single export (new cache entries are allowed), (b) through every public observable against a twin built "
     "the same way and never exported (shapes_common.observe/compare, 1e-9), (c) by an independent centroid / volume, "
@@ -469,21 +478,50 @@ def area_vector(P):
     return newell(P - P[0])
 
 
-def check_orientation(V, F):
-    """outward: signed volume of the parsed surface > 0 and every face normal points away from the vertex mean."""
+def unpaired_directed_edges(cycles):
+    """directed edges of the index cycles that do not occur exactly once or whose reverse does not occur exactly once
+    (empty for a closed, consistently oriented surface)"""
+    cnt = {}
+    for f in cycles:
+        f = [int(i) for i in f]
+        for e in zip(f, f[1:] + f[:1]):
+            cnt[e] = cnt.get(e, 0) + 1
+    return sorted(e for e, m in cnt.items() if m != 1 or cnt.get((e[1], e[0]), 0) != 1)
+
+
+def signed_volume(V, F):
+    """divergence theorem on the fan triangles of the cycles, about the vertex mean"""
     c = V.mean(axis=0)
     vol = 0.0
     for f in F:
-        P = V[f] - c
+        P = V[list(f)] - c
         for j in range(1, len(f) - 1):
             vol += np.dot(P[0], np.cross(P[j], P[j + 1])) / 6.0
+    return vol
+
+
+def check_orientation(V, F, ref=None, F_shape=None):
+    """outward: the surface is closed and consistently oriented (every directed edge matched by exactly one opposite
+    edge), its signed volume is > 0 and equals the solid's volume where that is known exactly; for convex solids
+    moreover every face normal points away from the vertex mean.  F_shape: the cycles in the shape's vertex numbering
+    (for the edge pairing) when F indexes per-corner points."""
+    bad = unpaired_directed_edges(F if F_shape is None else F_shape)
+    if bad:
+        raise Bad("orientation", "%d directed edges are not matched by exactly one opposite edge, e.g. %r"
+                  % (len(bad), bad[:3]))
+    vol = signed_volume(V, F)
     if not vol > 0:
         raise Bad("orientation", "signed volume %r" % vol)
-    for f in F:
-        P = V[f]
-        n = area_vector(P)
-        if not np.dot(n, P.mean(axis=0) - c) > 0:
-            raise Bad("orientation", "face %r points inward" % (list(f),))
+    known = getattr(ref, "volume", None)
+    if known is not None and abs(vol - known) > 1e-9 * gen.diameter(V) ** 3:
+        raise Bad("orientation", "signed volume %r, volume of the solid %r" % (vol, known))
+    if getattr(ref, "convex", True):
+        c = V.mean(axis=0)
+        for f in F:
+            P = V[f]
+            n = area_vector(P)
+            if not np.dot(n, P.mean(axis=0) - c) > 0:
+                raise Bad("orientation", "face %r points inward" % (list(f),))
 
 
 def compare_indexed(p, Vt, F):
@@ -501,7 +539,7 @@ def compare_indexed(p, Vt, F):
         raise Bad("face-arity")
     if sorted(canon(f) for f in F) != sorted(canon(f) for f in p.faces):
         raise Bad("face-cycles", "faces of the file are not the shape's cycles")
-    check_orientation(V, F)
+    check_orientation(V, F, p)
 
 
 def vertex_lookup(p):
@@ -531,13 +569,14 @@ def compare_expanded(p, Vt, F):
     used = set(i for f in F for i in f)
     if len(used) != len(V):
         raise Bad("point-count", "%d points, %d referenced" % (len(V), len(used)))
-    check_orientation(V, F)
+    check_orientation(V, F, p, F_shape=faces)
 
 
 def compare_stl(p, facets):
     ref = np.ascontiguousarray(p.vertices, dtype=np.float64)
     look = vertex_lookup(p)
     centre = ref.mean(axis=0)
+    convex = getattr(p, "convex", True)
     tris = []
     for n_tok, tri_tok in facets:
         n = to_floats([n_tok])[0]
@@ -578,7 +617,10 @@ def compare_stl(p, facets):
             tot += np.linalg.norm(g)
             if not np.dot(g, fn) > 0:
                 raise Bad("triangle-orientation", "triangle %r of face %r is flipped" % ((a, b, c), f))
-            if not (np.dot(n, g) > 0 and np.dot(n, fn) > 0 and np.dot(n, out) > 0):
+            # (a) right-hand rule of the listed corners, (d) the outward normal of the face the facet came from (the
+            # shape's own cycles are outward: closed, consistently oriented, positive volume — checked below);
+            # for a convex solid also directly: away from the vertex mean
+            if not (np.dot(n, g) > 0 and np.dot(n, fn) > 0 and (not convex or np.dot(n, out) > 0)):
                 raise Bad("normal-not-outward", "triangle %r normal %r" % ((a, b, c), n.tolist()))
             # rounding of a cross product of coordinate differences: eps * |coordinate| * |edge| per component
             T = ref[[a, b, c]]
@@ -588,6 +630,19 @@ def compare_stl(p, facets):
                 raise Bad("normal-not-perpendicular", "triangle %r normal %r" % ((a, b, c), n.tolist()))
         if abs(tot - farea) > 1e-8 * farea:
             raise Bad("triangles-do-not-cover-face", "face %r: area %r, triangles %r" % (f, farea, tot))
+    # (b) the facets form a closed, consistently oriented surface; (c) whose signed volume is the volume of the solid
+    # (the generator's exact value where known, else that of the shape's own face cycles) and positive
+    cyc = [idx for _, idx in tris]
+    bad = unpaired_directed_edges(cyc)
+    if bad:
+        raise Bad("facets-not-a-closed-oriented-surface",
+                  "%d directed edges are not matched by exactly one opposite edge, e.g. %r" % (len(bad), bad[:3]))
+    vol = signed_volume(ref, cyc)
+    want = getattr(p, "volume", None)
+    if want is None:
+        want = signed_volume(ref, faces)
+    if not (vol > 0 and abs(vol - want) <= 1e-9 * gen.diameter(ref) ** 3):
+        raise Bad("facets-signed-volume", "signed volume of the facets %r, volume of the solid %r" % (vol, want))
 
 
 # ----------------------------------------------------------------------------------------------------------------
@@ -722,6 +777,9 @@ def reads_as(ctx, pairs):
 def build_direct(case):
     import coxeter
     v = np.array(case["vertices"], dtype=float)
+    if case["cls"] == "mesh":
+        # a closed, outward oriented mesh with planar convex faces, in general NOT convex and not star-shaped
+        return coxeter.shapes.Polyhedron(v, [np.array(f) for f in case["faces"]])
     cp = coxeter.shapes.ConvexPolyhedron(v)
     if case["cls"] == "convex":
         return cp
@@ -786,9 +844,11 @@ INDEXED = {"OBJ": parse_obj, "OFF": parse_off, "PLY": parse_ply, "VTK": parse_vt
 class Ref:
     """the reference geometry a file is compared with (captured BEFORE any export)"""
 
-    def __init__(self, vertices, faces):
+    def __init__(self, vertices, faces, convex=True, volume=None):
         self.vertices = np.ascontiguousarray(vertices, dtype=np.float64).copy()
         self.faces = [[int(i) for i in f] for f in faces]
+        self.convex = convex        # False: only the general orientation clauses apply
+        self.volume = volume        # exact volume of the solid where the generator knows it
 
 
 def check_file(ctx, case, ft, data, ref, emit_known=True, sig_suffix=""):
@@ -999,8 +1059,14 @@ def eval_case(ctx, case):
     extreme = bool(case.get("extreme"))
     ver = coxeter.__version__
     cls = p.__class__.__name__
-    ref = Ref(p.vertices, p.faces)
+    is_mesh = case["cls"] == "mesh"
+    ref = Ref(p.vertices, p.faces, convex=not is_mesh, volume=case.get("volume"))
     V0, faces = ref.vertices, ref.faces
+    if is_mesh:
+        ctx.count("class:Polyhedron:non-convex")
+        cm = V0.mean(axis=0)
+        if any(np.dot(area_vector(V0[f]), V0[f].mean(axis=0) - cm) < 0 for f in faces):
+            ctx.count("class:Polyhedron:not-star-shaped-about-the-vertex-mean")
     size = shapes_common.size_of(p)
     krng = history.rng_for([case["vertices"], "c20-order"])
     ctx.count("class:" + cls)
@@ -1313,7 +1379,8 @@ def eval_case(ctx, case):
                 ctx.fail("Polyhedron.save:raises-after-move:" + exc_kind(e), "save raised after a centroid move", case,
                          repr(e))
                 return
-        check_file(ctx, case, ft2, data, Ref(p.vertices, p.faces), emit_known=False, sig_suffix=":after-move")
+        check_file(ctx, case, ft2, data, Ref(p.vertices, p.faces, convex=not is_mesh, volume=case.get("volume")),
+                   emit_known=False, sig_suffix=":after-move")
 
 
 def make_case(rng, ctx):
@@ -1357,6 +1424,94 @@ def extreme_case(rng, ctx, s):
             "extreme": True}
 
 
+def _prism_tricaps(poly, tris, z0, z1):
+    poly = np.asarray(poly, dtype=float)
+    n = len(poly)
+    V = np.vstack([np.c_[poly, np.full(n, z0)], np.c_[poly, np.full(n, z1)]])
+    F = []
+    for (i, j, k) in tris:
+        F.append([k, j, i])
+        F.append([n + i, n + j, n + k])
+    for i in range(n):
+        j = (i + 1) % n
+        F.append([i, j, n + j, n + i])
+    return V, F
+
+
+def dented_cube(kind, depth, a=0.2, dx=0.0, dy=0.0):
+    """unit cube whose whole top face is replaced by a pyramidal / frustum-shaped dent of the given depth: every face is
+    convex; for depth > ~0.5 the planes of the dent's faces separate them from the vertex mean (not star-shaped)"""
+    cube = np.array([[0, 0, 0], [1, 0, 0], [1, 1, 0], [0, 1, 0], [0, 0, 1], [1, 0, 1], [1, 1, 1], [0, 1, 1]], dtype=float)
+    walls = [[0, 3, 2, 1], [0, 1, 5, 4], [1, 2, 6, 5], [2, 3, 7, 6], [3, 0, 4, 7]]
+    if kind == "pyramid":
+        V = np.vstack([cube, [[0.5 + dx, 0.5 + dy, 1.0 - depth]]])
+        F = walls + [[4, 5, 8], [5, 6, 8], [6, 7, 8], [7, 4, 8]]
+        vol = 1.0 - depth / 3.0
+    else:
+        h = 1.0 - depth
+        V = np.vstack([cube, [[a, a, h], [1 - a, a, h], [1 - a, 1 - a, h], [a, 1 - a, h]]])
+        F = walls + [[4, 5, 9, 8], [5, 6, 10, 9], [6, 7, 11, 10], [7, 4, 8, 11], [8, 9, 10, 11]]
+        vol = 1.0 - depth / 3.0 * (1.0 + (1 - 2 * a) ** 2 + (1 - 2 * a))
+    return V, F, vol
+
+
+def place_mesh(rng, V, vol, octant=None):
+    """anisotropic axis scaling (keeps the faces planar), rigid motion, scale, offset into an octant"""
+    d = 2.0 ** rng.integers(-1, 2, size=3) if rng.random() < 0.4 else np.ones(3)
+    V = V * d
+    vol = vol * float(np.prod(d))
+    r = rng.random()
+    if r < 0.5:
+        R = gen.random_rotation(rng)
+    elif r < 0.8:
+        R = gen.c05_signed_perm_rotation(rng)
+    else:
+        R = np.eye(3)
+    s = float(10 ** rng.uniform(-3, 3)) if rng.random() < 0.5 else 1.0
+    V = (V - V.mean(axis=0)) @ np.asarray(R, dtype=float).T * s
+    vol *= s ** 3
+    sign = np.asarray(octant if octant is not None else rng.choice([-1.0, 1.0], size=3), dtype=float)
+    off = sign * rng.uniform(0.0, 3.0, size=3) * gen.diameter(V) * (0.0 if rng.random() < 0.2 else 1.0)
+    return V + off, vol, {"scale": s, "octant": sign.tolist()}
+
+
+def mesh_case(rng, ctx, octant=None, family=None, dent_kind=None):
+    """non-convex closed meshes with convex faces, as Polyhedron: dented cubes, voxel solids (U, C, frames, cup, cage …),
+    prisms over non-convex polygons with triangulated caps; the exact volume is known"""
+    family = family or ["dent", "dent", "voxel", "voxel", "prism"][int(rng.integers(5))]
+    if family == "dent":
+        kind = dent_kind or ("pyramid" if rng.random() < 0.5 else "frustum")
+        depth = float(rng.uniform(0.55, 0.95)) if (dent_kind or rng.random() < 0.85) else float(rng.uniform(0.05, 0.3))
+        V, F, vol = dented_cube(kind, depth, a=float(rng.uniform(0.1, 0.35)), dx=float(rng.uniform(-0.3, 0.3)),
+                                dy=float(rng.uniform(-0.3, 0.3)))
+        name = "dented-cube:%s" % kind
+    elif family == "voxel":
+        kinds = ["U", "C", "frame", "frame-thick", "cup", "cage", "stairs", "L3d", "L", "T", "plus", "random"]
+        m = gen.c05_voxel_solid(rng, kinds[int(rng.integers(len(kinds)))])
+        V, F = np.array(m["vertices"], dtype=float), [list(map(int, f)) for f in m["faces"]]
+        vol = len(m["cells"]) * float(np.prod(m["spacing"]))
+        name = m["kind"]
+    else:
+        while True:
+            try:
+                m = gen.c05_extruded_polygon(rng)
+                tris = gen.ear_clip_exact(np.asarray(m["poly"], dtype=float).tolist())
+                if tris:
+                    break
+            except RuntimeError:
+                continue
+        poly = np.asarray(m["poly"], dtype=float)
+        V, F = _prism_tricaps(poly, tris, m["z0"], m["z1"])
+        x, y = poly[:, 0], poly[:, 1]
+        vol = 0.5 * abs(float(np.dot(x, np.roll(y, -1)) - np.dot(y, np.roll(x, -1)))) * (m["z1"] - m["z0"])
+        name = m["kind"] + ":tricaps"
+    V, vol, info = place_mesh(rng, V, vol, octant)
+    ctx.count("kind:" + name.split(":")[0] + ":" + name.split(":")[1])
+    info["kind"] = name
+    return {"vertices": V.tolist(), "faces": F, "cls": "mesh", "volume": float(vol), "info": info,
+            "unknown": ["obj"], "save_model": "STL", "tamper": bool(rng.random() < 0.1)}
+
+
 def fixed_cases():
     """exponent notation, both signs, 1e-6 / 1e6 magnitudes on simple solids; every octant, both classes."""
     tet = np.array([[1, 1, 1], [1, -1, -1], [-1, 1, -1], [-1, -1, 1]], dtype=float)
@@ -1396,9 +1551,16 @@ def run(ctx):
             ctx.count("kind:fixed")
             ctx.case(case)
             eval_case(ctx, case)
-    n = ctx.budget(36, 950)
+    n = ctx.budget(36, 800)
     for _ in range(n):
         case = make_case(ctx.rng, ctx)
+        ctx.case(case)
+        eval_case(ctx, case)
+    octants = [(sx, sy, sz) for sx in (-1.0, 1.0) for sy in (-1.0, 1.0) for sz in (-1.0, 1.0)]
+    for j in range(ctx.budget(20, 260)):
+        # every octant, and the deep dents (not star-shaped about the vertex mean) in every run
+        case = mesh_case(ctx.rng, ctx, octant=octants[j % 8], family="dent" if j < 8 else None,
+                         dent_kind=["pyramid", "frustum"][j % 2] if j < 8 else None)
         ctx.case(case)
         eval_case(ctx, case)
     for _ in range(ctx.budget(10, 150)):
